@@ -349,3 +349,41 @@ func (p *Prog) initMayWrite() {
 		}
 	}
 }
+
+// substParams rewrites the boolean expression a predicate helper returns into
+// the caller's terms: parameters are replaced by the call's arguments
+// (`rs.state.isLoaded()` with `func (s state) isLoaded() bool { return s > k }`
+// becomes `rs.state > k`). pure reports that no value local to the helper
+// remains, so the result can be read entirely in the caller's frame.
+func substParams(sf *ssa.Function, args []ssa.Value, v ssa.Value, depth int) (out ssa.Value, pure bool) {
+	if depth > 4 {
+		return v, false
+	}
+	switch x := v.(type) {
+	case *ssa.Const:
+		return v, true
+	case *ssa.Parameter:
+		for i, prm := range sf.Params {
+			if prm == x && i < len(args) {
+				return args[i], true
+			}
+		}
+		return v, false
+	case *ssa.BinOp:
+		a, pa := substParams(sf, args, x.X, depth+1)
+		b, pb := substParams(sf, args, x.Y, depth+1)
+		if a == x.X && b == x.Y {
+			return v, pa && pb
+		}
+		return &ssa.BinOp{Op: x.Op, X: a, Y: b}, pa && pb
+	case *ssa.UnOp:
+		if x.Op == token.NOT {
+			a, pa := substParams(sf, args, x.X, depth+1)
+			if a == x.X {
+				return v, pa
+			}
+			return &ssa.UnOp{Op: x.Op, X: a}, pa
+		}
+	}
+	return v, false
+}
